@@ -16,7 +16,11 @@ Reading of the sentence fixed here (documented in docs/C16.md):
 * "comes from the same origin or a configured trusted origin" is decided on the `(scheme, host)` that
   `net/url` assigns to the header (parameter), against the configured list read as: exact
   `scheme://host[:port]`, or `scheme://*.domain` = same scheme and host ending in `.domain`;
-* "if the token store fails": a storage call made for the request returned an error.
+* with a session back-end a token belongs to the session in whose reply it was handed out, and is
+  accepted only together with that session's cookie ("swap between clients");
+* "if the token store fails": a storage call the middleware made for the request, before handing it to
+  the protected handler, returned an error (a failure of the handler's own later `DeleteToken` call
+  cannot un-reach the handler).
 -/
 namespace C16
 open B
@@ -70,11 +74,33 @@ structure Obs where
   gens : List Bytes
   sgens : List Bytes
   fired : Bool                          -- some storage call of this request failed
+  early : Bool                          -- … before the protected handler was entered (or it never was)
   live : Option (List LiveItem)         -- probe of the token store after the request, if available
   deriving Repr, DecidableEq
 
+/-- the token-store probe of a model state (what the harness reads out of the real store) -/
+def probe (cfg : Cfg) (st : St) : List LiveItem :=
+  match cfg.backend with
+  | .storage => (st.store.filter fun e => st.now < e.2).map fun e => { sid := [], tok := some e.1, deadline := e.2 }
+  | _ => st.sess.map fun e => match e.2 with
+      | some t => { sid := e.1, tok := some t.key, deadline := t.exp }
+      | none => { sid := e.1, tok := none, deadline := 0 }
+
+/-- the observation the harness makes of a response `r` and the state `st` after it -/
+def obsOf (cfg : Cfg) (st : St) (r : Resp) : Obs :=
+  { pass := r.pass, status := r.status, ck := r.ck, sc := r.sc, gens := r.gens, sgens := r.sgens,
+    fired := r.fg || r.fs || r.fd, early := r.early, live := some (probe cfg st) }
+
+/-- the observations of a whole history run on the model (`none` for a clock advance) -/
+def runObs (cfg : Cfg) (gen sgen : Nat → Bytes) : St → List Op → List (Option Obs)
+  | _, [] => []
+  | st, o :: os =>
+    let (st', r) := step cfg gen sgen st o
+    r.map (obsOf cfg st') :: runObs cfg gen sgen st' os
+
 def panicObs : Obs :=
-  { pass := false, status := 0, ck := none, sc := none, gens := [], sgens := [], fired := false, live := none }
+  { pass := false, status := 0, ck := none, sc := none, gens := [], sgens := [], fired := false, early := false,
+    live := none }
 
 structure LiveTok where
   deadline : Nat
@@ -139,51 +165,74 @@ def probeSound (s : SpecSt) (o : Obs) : Bool :=
                                  | some l => decide (it.deadline ≤ l.deadline)
                                  | none => false))
 
-/-- one request: the first violated clause, or the next spec state -/
-def specReq (cfg : SpecCfg) (s : SpecSt) (q : Req) (o : Obs) : Except String SpecSt := do
-  let s := { s with issued := s.issued ++ o.gens }
-  let unsafeM := !isSafe q.method
-  -- clauses about reaching the handler
-  let mut live := s.live
-  if unsafeM then
+/-- session back-ends: the token was handed to the session the request presents -/
+def heldBy (s : SpecSt) (t sc : Bytes) : Bool :=
+  match lookup s.live t with
+  | some l => decide (l.holder = some sc)
+  | none => false
+
+/-- clauses about reaching the handler; yields the live set after a single-use token was consumed -/
+def reachClause (cfg : SpecCfg) (s : SpecSt) (q : Req) (o : Obs) : Except String (List (Bytes × LiveTok)) :=
+  if !isSafe q.method then
     if o.pass then
-      if o.fired then throw "store-failure-must-reject"
-      if !originClause cfg q then throw "origin-gate"
-      match acceptedToken cfg s q with
-      | none => throw "unsafe-pass-requires-live-issued-token-matching-cookie"
-      | some t =>
-        if cfg.single then live := erase live t
-  else
-    if !o.pass then throw "safe-methods-pass"
-  -- the handler ran: what the reply hands out
-  if o.pass then
-    -- every token generated for this request is live from now on, handed out or not
-    for g in o.gens do
-      live := put live g { deadline := s.now + cfg.idle, holder := o.sc }
-    -- DeleteToken called by the handler
-    if q.del && q.ck ≠ [] && !o.fired then
-      let mine := match lookup live q.ck with
-        | some l => !cfg.sessionBacked || l.holder = some q.sc || l.holder = o.sc
-        | none => false
-      if mine then live := erase live q.ck
-    match o.ck with
-    | some t =>
-      if t ≠ [] then
-        if !(s.issued.contains t) then throw "cookie-token-was-not-issued"
-        let keeps := t = q.ck && s.liveAt t
-        if !(keeps || o.gens.contains t) then throw "cookie-token-neither-presented-live-nor-fresh"
-        live := put live t { deadline := s.now + cfg.idle, holder := o.sc }
-        if !unsafeM && !o.fired && !probeHas o t (s.now + cfg.idle) then throw "safe-leaves-valid-token-cookie"
-    | none =>
-      if !unsafeM && !q.del then throw "safe-leaves-valid-token-cookie"
-    if !unsafeM && !q.del && o.ck = some [] then throw "safe-leaves-valid-token-cookie"
-  else
-    match o.ck with
-    | some t => if t ≠ [] then throw "rejected-request-handed-out-token"
-    | none => pure ()
-  let s' := { s with live := live }
-  if !probeSound s' o then throw "store-holds-unissued-or-dead-token"
-  return s'
+      if o.early then .error "store-failure-must-reject"
+      else if !originClause cfg q then .error "origin-gate"
+      else match acceptedToken cfg s q with
+        | none => .error "unsafe-pass-requires-live-issued-token-matching-cookie"
+        | some t =>
+          -- tokens of different clients never mix: a session-bound token only works with its session
+          if cfg.sessionBacked && !heldBy s t q.sc then .error "token-of-another-session"
+          else .ok (if cfg.single then erase s.live t else s.live)
+    else .ok s.live
+  else if !o.pass then .error "safe-methods-pass"
+  else .ok s.live
+
+/-- every token generated for this request is live from now on, handed out or not -/
+def afterGens (cfg : SpecCfg) (s : SpecSt) (o : Obs) (live : List (Bytes × LiveTok)) : List (Bytes × LiveTok) :=
+  o.gens.foldl (fun l g => put l g { deadline := s.now + cfg.idle, holder := o.sc }) live
+
+/-- the token `DeleteToken` is called on belongs to the caller (session back-ends: to its session) -/
+def delMine (cfg : SpecCfg) (q : Req) (o : Obs) (live : List (Bytes × LiveTok)) : Bool :=
+  match lookup live q.ck with
+  | some l => !cfg.sessionBacked || l.holder = some q.sc || l.holder = o.sc
+  | none => false
+
+/-- `DeleteToken` called by the handler -/
+def afterDel (cfg : SpecCfg) (q : Req) (o : Obs) (live : List (Bytes × LiveTok)) : List (Bytes × LiveTok) :=
+  if q.del && q.ck ≠ [] && !o.fired && delMine cfg q o live then erase live q.ck else live
+
+/-- the handler ran: what the reply hands out (`s` = the state before the request, issued set updated) -/
+def cookieClause (cfg : SpecCfg) (s : SpecSt) (q : Req) (o : Obs) (live : List (Bytes × LiveTok)) :
+    Except String (List (Bytes × LiveTok)) :=
+  let noValid : Except String (List (Bytes × LiveTok)) :=
+    if isSafe q.method && !q.del then .error "safe-leaves-valid-token-cookie" else .ok live
+  match o.ck with
+  | none => noValid
+  | some t =>
+    if t = [] then noValid
+    else if !(s.issued.contains t) then .error "cookie-token-was-not-issued"
+    else if !((t = q.ck && s.liveAt t) || o.gens.contains t) then .error "cookie-token-neither-presented-live-nor-fresh"
+    else if isSafe q.method && !o.fired && !probeHas o t (s.now + cfg.idle) then .error "safe-leaves-valid-token-cookie"
+    else .ok (put live t { deadline := s.now + cfg.idle, holder := o.sc })
+
+/-- the handler did not run: nothing is handed out -/
+def rejectClause (o : Obs) (live : List (Bytes × LiveTok)) : Except String (List (Bytes × LiveTok)) :=
+  match o.ck with
+  | some t => if t ≠ [] then .error "rejected-request-handed-out-token" else .ok live
+  | none => .ok live
+
+/-- one request: the first violated clause, or the next spec state -/
+def specReq (cfg : SpecCfg) (s0 : SpecSt) (q : Req) (o : Obs) : Except String SpecSt :=
+  let s := { s0 with issued := s0.issued ++ o.gens }
+  match reachClause cfg s q o with
+  | .error e => .error e
+  | .ok live1 =>
+    match (if o.pass then cookieClause cfg s q o (afterDel cfg q o (afterGens cfg s o live1))
+           else rejectClause o live1) with
+    | .error e => .error e
+    | .ok live2 =>
+      let s' := { s with live := live2 }
+      if !probeSound s' o then .error "store-holds-unissued-or-dead-token" else .ok s'
 
 def specRun (cfg : SpecCfg) : SpecSt → List Op → List (Option Obs) → Option String
   | _, [], _ => none
@@ -193,6 +242,16 @@ def specRun (cfg : SpecCfg) : SpecSt → List Op → List (Option Obs) → Optio
     | .error e => some e
     | .ok s' => specRun cfg s' ops obs
   | _, _, _ => some "observation-shape"
+
+/-- the specification state a history ends in (`none` once a clause is violated) -/
+def specEnd (cfg : SpecCfg) : SpecSt → List Op → List (Option Obs) → Option SpecSt
+  | s, [], _ => some s
+  | s, .adv d :: ops, _ :: obs => specEnd cfg { s with now := s.now + d } ops obs
+  | s, .req q :: ops, some o :: obs =>
+    match specReq cfg s q o with
+    | .error _ => none
+    | .ok s' => specEnd cfg s' ops obs
+  | _, _, _ => none
 
 /-- branch tags for the distribution report -/
 def specTags (cfg : Cfg) (ops : List Op) (obs : List (Option Obs)) : List String :=
